@@ -40,8 +40,10 @@ PROP = {
  'level_text': 'Coq theorems: an independent protocol printer (keys, kitty keys, SGR mouse, CPR, size, DECRPM, DA1, OSC colours in '
                '4/8/12/16-bit forms, XTGETTCAP, kitty image replies, bracketed paste, UTF-8 text) followed by the model of '
                'TTYEventDecoder over the regenerated production automaton returns, for every well-formed self-delimiting report with any '
-               'parameter values and any following input, the event the report denotes; sequences decode to the sequence of their '
-               'events; table theorems (DEC modes, literal key table) are re-checked on regenerated data.',
+               'parameter values and any following input, the event the report denotes (every family; an SGR sequence by the meaning of '
+               'its modification record, via the C06 reference machine); sequences decode to the sequence of their events; table '
+               'theorems (DEC modes, literal key table, xterm reference encoding of the keys, modifier convention, CPR vs F3) are '
+               're-checked on regenerated data.',
  'level_note': 'Trusted: Coq kernel + vm_compute; DFA dump hook + translate/dfa.py + translate/c04keys.py; hand-written payload '
                'models validated by the correspondence run; C03 theorem (feeding any partition of the stream = munch); the printer '
                '(Decoder/Printer.v) as the meaning of the protocols. No axioms.',
